@@ -63,8 +63,10 @@ impl Host {
             .arg("2021")
             .arg("--crate-type")
             .arg(if bin { "bin" } else { "lib" })
-            .arg("--cap-lints")
-            .arg("allow")
+            // warnings are of no interest, but lints that are errors by default (an integer literal
+            // that does not fit its type, ...) must stay errors: they are in a user's crate too
+            .arg("-A")
+            .arg("warnings")
             .arg("-L")
             .arg(format!("dependency={}", self.deps.display()))
             .arg("--extern")
